@@ -207,6 +207,14 @@ pub fn attack_payload(r: &mut Rng, class: &str, ctl_keys: &[Vec<u8>], atk_ns: &s
 }
 
 fn hostile_connection(port: u16, class: &str, payload: Vec<u8>, hold_ms: u64) -> (u64, bool) {
+    if class == "truncated-then-close" {
+        // the same truncated stream on two more short-lived connections
+        for _ in 0..2 {
+            if let Ok(mut s) = connect(port) {
+                let _ = s.write_all(&payload);
+            }
+        }
+    }
     // returns (bytes received, connection was closed by the server)
     let s = match connect(port) {
         Ok(s) => s,
@@ -252,7 +260,11 @@ fn new_env(ctx: &Ctx, gen: u64, r: &mut Rng) -> Result<Env, String> {
     let mut conf = Conf::default();
     conf.max_file_size = *r.pick(&[4096u64, 65_536, 2 * 1024 * 1024 * 1024]);
     conf.conc = 2;
-    let srv = Server::spawn(&dir, &conf, 64, 2, &[])?;
+    // a small connection limit on purpose: an attack that makes a connection's slot leak (a
+    // handler that never ends) must show within a few scenarios as a fresh connection that is
+    // never served
+    let max_conn = *r.pick(&[8usize, 8, 12]);
+    let srv = Server::spawn(&dir, &conf, max_conn, 2, &[])?;
     Ok(Env { srv, ctl_models: vec![HashMap::new(), HashMap::new()], atk_model: HashMap::new(), atk_keys: Default::default(), counter: 0 })
 }
 
